@@ -132,7 +132,10 @@ fn main() {
                     "C15" => c15::generate(&mut rng, &tier, &mut emit),
                     "C17" => c17::generate_c17(&mut rng, &tier, &mut emit),
                     "C20" => c17::generate_c20(&mut rng, &tier, &mut emit),
-                    "C08" => c08::generate(&mut rng, &tier, &mut emit),
+                    "C08" => {
+                        c08::generate(&mut rng, &tier, &mut emit);
+                        c08::generate_daemon(&mut rng, &tier, &mut emit);
+                    }
                     "C16" => c16::generate(&mut rng, &tier, &mut emit),
                     "C18" => {
                         c18::generate(&mut rng, &tier, &mut emit);
